@@ -120,26 +120,35 @@ def internalCost (c : Cache) (cost : Int) : Int :=
 
 -- client operations ------------------------------------------------------------------------
 
-/-- `try_insert_in`: `ext` is the Coster's valuation of the value (used when `cost = 0`).
-Returns the `bool` the call returns. -/
-def insert (c : Cache) (shouldUpdate : Nat → Nat → Bool) (k conflict v : Nat) (cost : Int) (ttl : Nat)
+/-- the body of `try_insert_in` after its closed-check: `ext` is the Coster's valuation of the value
+(used when `cost = 0`). Returns the `bool` the call returns. -/
+def insertBody (c : Cache) (shouldUpdate : Nat → Nat → Bool) (k conflict v : Nat) (cost : Int) (ttl : Nat)
     (now : Nat) (coster : Int) (onlyUpdate : Bool) : Cache × Bool :=
-  if c.closed then (c, false) else
   let exp : Time := { d := ttl, created := now }
   -- an expired entry that has not been reclaimed yet counts as absent for `insert_if_present`
   if onlyUpdate && (c.store.get k conflict now).isNone then (c, false) else
   let ext : Int := if cost == 0 then coster else 0
-  match c.store.tryUpdate shouldUpdate k v conflict exp with
-  | (s', .update old) =>
-    let c := { c with store := s', cbs := CB.exit old :: c.cbs }
+  let r := c.store.tryUpdate shouldUpdate k v conflict exp
+  -- the non-blocking send succeeds when the buffer has room and the processor has not gone
+  -- (a call that passed its closed-check before a `close()` finds the channel disconnected)
+  let room := c.buf.length < c.cfg.bufCap && !c.procExited
+  match r.2 with
+  | .update old =>
     -- an update returns true whether or not the item fits in the buffer
-    if c.buf.length < c.cfg.bufCap then ({ c with buf := c.buf ++ [Item.update k cost ext] }, true)
-    else (c, true)
-  | (_, _) =>
+    if room then
+      ({ c with store := r.1, cbs := CB.exit old :: c.cbs, buf := c.buf ++ [Item.update k cost ext] }, true)
+    else ({ c with store := r.1, cbs := CB.exit old :: c.cbs }, true)
+  | _ =>
     if onlyUpdate then (c, false)
-    else if c.buf.length < c.cfg.bufCap then
+    else if room then
       ({ c with buf := c.buf ++ [Item.new k conflict (cost + ext) v exp] }, true)
     else (c.met fun m => { m with dropSets := u64 (m.dropSets + 1) }, false)
+
+/-- `try_insert_in`: the closed-check, then the body. (The two are separate atomic sections: a
+`close()` can slip in between; `insertBody` is what then still runs.) -/
+def insert (c : Cache) (shouldUpdate : Nat → Nat → Bool) (k conflict v : Nat) (cost : Int) (ttl : Nat)
+    (now : Nat) (coster : Int) (onlyUpdate : Bool) : Cache × Bool :=
+  if c.closed then (c, false) else c.insertBody shouldUpdate k conflict v cost ttl now coster onlyUpdate
 
 /-- `RingStripe::push` + `LFUPolicy::push` -/
 def ringPush (c : Cache) (k : Nat) : Cache :=
@@ -167,9 +176,10 @@ def get (c : Cache) (k conflict now : Nat) : Cache × Option Nat :=
 def getMutWrite (c : Cache) (k conflict now v : Nat) : Cache × Option Nat :=
   if c.closed then (c, none) else
   let c := c.ringPush k
-  match c.store.getMutWrite k conflict now v with
-  | (_, none) => (c.met fun m => { m with miss := u64 (m.miss + 1) }, none)
-  | (s', some old) => (({ c with store := s' }).met fun m => { m with hit := u64 (m.hit + 1) }, some old)
+  let r := c.store.getMutWrite k conflict now v
+  match r.2 with
+  | none => (c.met fun m => { m with miss := u64 (m.miss + 1) }, none)
+  | some old => (({ c with store := r.1 }).met fun m => { m with hit := u64 (m.hit + 1) }, some old)
 
 /-- `get_ttl` -/
 def getTtl (c : Cache) (k conflict now : Nat) : Option (Option Nat) := c.store.getTtl k conflict now
@@ -179,9 +189,10 @@ blocking send, so when the buffer is full the call stays blocked (returns `true`
 processor frees a slot. -/
 def remove (c : Cache) (k conflict : Nat) : Cache × Bool :=
   if c.closed then (c, false) else
-  let c := match c.store.tryRemove k conflict with
-    | (s', some e) => { c with store := s', cbs := CB.exit e.val :: c.cbs }
-    | (_, none) => c
+  let r := c.store.tryRemove k conflict
+  let c := match r.2 with
+    | some e => { c with store := r.1, cbs := CB.exit e.val :: c.cbs }
+    | none => c
   if c.buf.length < c.cfg.bufCap && c.pendingSends.isEmpty then
     ({ c with buf := c.buf ++ [Item.delete k conflict] }, false)
   else ({ c with pendingSends := c.pendingSends ++ [Item.delete k conflict] }, true)
@@ -223,14 +234,14 @@ def len (c : Cache) : Nat := c.store.len
 def evictVictims (c : Cache) : List (Nat × Int) → Cache
   | [] => c
   | (vk, vc) :: rest =>
-    match c.store.tryRemove vk 0 with
-    | (s', some e) =>
+    match (c.store.tryRemove vk 0).2 with
+    | some e =>
       let tracked := c.tracked.contains vk
-      let c := { c with store := s', cbs := CB.evict vk e.conflict e.val vc :: c.cbs,
-                        tracked := c.tracked.filter (· != vk) }
-      let c := if tracked then c.met fun m => { m with lifeCount := m.lifeCount + 1 } else c
-      evictVictims c rest
-    | (_, none) => evictVictims c rest
+      let c1 := { c with store := (c.store.tryRemove vk 0).1, cbs := CB.evict vk e.conflict e.val vc :: c.cbs,
+                         tracked := c.tracked.filter (· != vk) }
+      let c2 := if tracked then c1.met fun m => { m with lifeCount := m.lifeCount + 1 } else c1
+      evictVictims c2 rest
+    | none => evictVictims c rest
 
 /-- `handle_item` -/
 def handleItem (c : Cache) (shouldUpdate : Nat → Nat → Bool) (est : Nat → Int)
@@ -255,18 +266,16 @@ def handleItem (c : Cache) (shouldUpdate : Nat → Nat → Bool) (est : Nat → 
     | none => c
   | .update k cost ext =>
     let cost' := c.internalCost cost + ext
-    let (l', _, evs) := c.lfu.update k cost'
-    ({ c with lfu := l' }).met fun m => m.applyEvs evs
+    ({ c with lfu := (c.lfu.update k cost').1 }).met fun m => m.applyEvs (c.lfu.update k cost').2.2
   | .delete k conflict =>
-    let (s', removed) := c.store.tryRemove k conflict
-    let c := { c with store := s' }
-    let c := if (s'.expiration k).isNone then
-        let (l', evs) := policyRemove c.lfu k
-        ({ c with lfu := l' }).met fun m => m.applyEvs evs
-      else c
-    match removed with
-    | some e => { c with cbs := CB.exit e.val :: c.cbs }
-    | none => c
+    let r := c.store.tryRemove k conflict
+    let c1 := { c with store := r.1 }
+    let c2 := if (r.1.expiration k).isNone then
+        ({ c1 with lfu := (policyRemove c.lfu k).1 }).met fun m => m.applyEvs (policyRemove c.lfu k).2
+      else c1
+    match r.2 with
+    | some e => { c2 with cbs := CB.exit e.val :: c2.cbs }
+    | none => c2
   | .wait id => { c with released := id :: c.released }
 
 /-- one iteration of the loop taking the insert-buffer branch -/
